@@ -460,7 +460,7 @@ fn coordinator(args: &[String]) -> i32 {
     std::env::var(if thorough { "ORDSIM_THOROUGH_SECS" } else { "ORDSIM_QUICK_SECS" })
       .ok()
       .and_then(|s| s.parse().ok())
-      .unwrap_or(if thorough { 900 } else { 40 }),
+      .unwrap_or(if thorough { 600 } else { 40 }),
   );
   let max = arg_u64(args, "--max", u64::MAX);
   let start = Instant::now();
